@@ -42,6 +42,8 @@ def run(prog, rep):
                         {'string': str(diff[0][1]), 'stream': str(diff[0][2])}, func=ft.id, count=len(diff))
     from rules import stream_window
     stream_window.check(prog, rep, 'R10.5', floor=9)
+    from rules import c09
+    c09.check_lookahead_fresh(prog, rep, 'R10.6')       # the stream reader must notice the end of input exactly where the memory reader does
 
     try:
         from rules import twins_extra
